@@ -74,6 +74,7 @@ type Tape struct {
 	FaultErr   error        // the error the failing read returns (nil: ErrInjected)
 	Yield      bool         // runtime.Gosched() inside every Read
 	KeepLog    bool
+	Aux        bool // an auxiliary execution (fault-aborted run between two leaves): its outcome is not a leaf
 
 	// ---- observations ----
 	Path            []Step
